@@ -18,6 +18,7 @@ func init() {
 			ruleChunkHeaderCodec(c, r, t, "")
 			ruleRingModulus(c, r, "", "enc")
 			ruleDeepCopy(c, r, "")
+			ruleOpSiblings(c, r, "")
 			cone := c.Cone(nonNilFns(c.Func("lzma", "Writer2.Write"), c.Func("lzma", "Writer2.Flush"), c.Func("lzma", "Writer2.Close"),
 				c.Func("lzma", "Writer2Config.NewWriter2"))...)
 			ruleIO(c, r, cone, "", true)
